@@ -30,6 +30,7 @@ theorem sentBy_reverse (w : List WEv) (t n : Nat) : sentBy w.reverse t n = sentB
 mention only the wire, the socket queue and the session sequence. -/
 def HolderInv (w : List WEv) (sock : List Reply) (ss : Nat) (t : Nat) (th : Thr) : Prop :=
   match th.pc with
+  | .actLoad => (monOf w).opn = none ∧ sock = [] ∧ (∀ a, (monOf w).last = some a → a = ss) ∧ ss ≤ 0xffffffff
   | .ssLoad => (monOf w).opn = none ∧ sock = [] ∧ (∀ a, (monOf w).last = some a → a = ss) ∧ ss ≤ 0xffffffff
   | .ssStore => (monOf w).opn = none ∧ sock = [] ∧ (∀ a, (monOf w).last = some a → a = ss) ∧ ss ≤ 0xffffffff
       ∧ th.reg = ss
@@ -56,6 +57,8 @@ structure Inv (s : Sys) : Prop where
   exch : (monOf s.wire).exch = true
   /-- clause (S): session sequence numbers increase in transmission order -/
   incr : (monOf s.wire).incr = true
+  /-- clause (C): nothing was transmitted after Close Session -/
+  after : (monOf s.wire).after = true
   ntx : (monOf s.wire).ntx = s.serial
   q : s.q = []
   free : s.lock = none → (monOf s.wire).opn = none ∧ s.sock = [] ∧
@@ -111,6 +114,7 @@ theorem inv_local {s s' : Sys} {t : Nat} {th th' : Thr} (hi : Inv s) (hget : s.t
     · exact ⟨x, by rw [List.getElem?_set_ne (fun h => e h.symm)]; exact hx⟩
   · rw [hwire]; exact hi.exch
   · rw [hwire]; exact hi.incr
+  · rw [hwire]; exact hi.after
   · rw [hwire, hserial]; exact hi.ntx
   · rw [hq]; exact hi.q
   · intro hl
@@ -139,6 +143,7 @@ theorem inv_holder {s s' : Sys} {t : Nat} {th th' : Thr} (hi : Inv s) (hget : s.
     (hl : s.lock = some t) (hlock : s'.lock = some t) (hthr : s'.thr = s.thr.set t th')
     (hpc : inLock th'.pc = true) (hres : th'.results = th.results)
     (hexch : (monOf s'.wire).exch = true) (hincr : (monOf s'.wire).incr = true)
+    (hafter : (monOf s'.wire).after = true)
     (hntx : (monOf s'.wire).ntx = s'.serial) (hq : s'.q = [])
     (hmono : ∀ t n, sentBy s.wire t n = true → sentBy s'.wire t n = true)
     (hown : HolderInv s'.wire s'.sock s'.sessSeq t th') : Inv s' := by
@@ -157,6 +162,7 @@ theorem inv_holder {s s' : Sys} {t : Nat} {th th' : Thr} (hi : Inv s) (hget : s.
     exact ⟨th', by rw [hthr]; exact get_set_self hget⟩
   · exact hexch
   · exact hincr
+  · exact hafter
   · exact hntx
   · exact hq
   · intro h; rw [hlock] at h; cases h
